@@ -44,14 +44,10 @@ case "$name" in
     echo built > built.marker ;;
   sudo) exit 0 ;;
   python)
+    # the rendered job options are EXECUTED (unmodified) against the stand-in EventLoop / SampleHandler in /jobfw
     [ -f "$1" ] || exit 4
     [ -f built.marker ] || exit 5
-    [ -f filelist.txt ] || exit 6
-    sub=bogus
-    for a in "$@"; do case "$a" in --submission-dir=*) sub="${a#--submission-dir=}";; esac; done
-    [ -e "$sub" ] && exit 7      # EventLoop refuses an existing submission directory
-    /usr/bin/mkdir -p "$sub/data-ANALYSIS"
-    { echo "NONCE $nonce"; while IFS= read -r l; do echo "INPUT $l"; done < filelist.txt; } > "$sub/data-ANALYSIS/ANALYSIS.root" ;;
+    VM_NONCE="$nonce" VM_ROOT="__ROOT__" PYTHONDONTWRITEBYTECODE=1 exec /usr/bin/python3 "__JOBFW__/jobrun.py" atlas "$@" ;;
   mkedanlzr)
     /usr/bin/mkdir "$1" || exit 3
     /usr/bin/mkdir "$1/src" "$1/plugins" "$1/python" ;;
@@ -60,11 +56,10 @@ case "$name" in
     { [ -f src/Analyzer.cc ] || [ -f plugins/Analyzer.cc ]; } || exit 4
     echo built > built.marker ;;
   cmsRun)
+    # the rendered configuration is EXECUTED (unmodified) and the process it defines is run by the stand-in in /jobfw
     [ -f "$1" ] || exit 4
     [ -f built.marker ] || exit 5
-    [ -f filelist.txt ] || exit 6
-    [ -n "$CMS_OUTPUT_FILE" ] || exit 8
-    { echo "NONCE $nonce"; while IFS= read -r l; do echo "INPUT $l"; done < filelist.txt; } > "$CMS_OUTPUT_FILE" ;;
+    VM_NONCE="$nonce" VM_ROOT="__ROOT__" PYTHONDONTWRITEBYTECODE=1 exec /usr/bin/python3 "__JOBFW__/jobrun.py" cms "$1" ;;
   root)
     last="${@: -1}"
     in=$(echo "$last" | /usr/bin/sed -n 's/.*copy_root_tree\.C("\([^"]*\)","\([^"]*\)").*/\1/p')
@@ -72,13 +67,19 @@ case "$name" in
     script=$(echo "$last" | /usr/bin/sed -n 's/\(.*copy_root_tree\.C\)(.*/\1/p')
     [ -f "$script" ] || exit 4
     [ -n "$in" ] && [ -n "$out" ] || exit 9
-    /usr/bin/cp "$in" "$out" ;;
+    # the rendered macro, compiled against the stand-in ROOT classes (mc/standin/jobfw/vm_root_macro.h), is what runs
+    [ -x "__JOBFW__/macro_bin" ] || exit 12
+    /usr/bin/cmp -s "$script" "__JOBFW__/macro.src" || exit 11
+    exec "__JOBFW__/macro_bin" "$in" "$out" ;;
   *) exit 127 ;;
 esac
 '''
 
 TOOLS = ["mkdir", "cp", "cat", "chmod", "rm", "dirname", "cmake", "make", "python", "sudo", "mkedanlzr", "scram", "cmsRun", "root", "xrdcp",
          "tee", "mv", "ls", "touch", "ln", "head", "tail", "sed", "grep", "date", "sleep", "basename", "true", "false", "test", "env", "tr", "cut", "sort", "wc"]
+
+# input "ROOT files" present under /data in every sandbox: name -> number of events
+DATA_FILES = {"f0.root": 3, "f1.root": 12, "one.root": 11, "two.root": 0}
 
 _NS_OK = None
 
@@ -96,8 +97,26 @@ def namespaces_available() -> bool:
     return _NS_OK
 
 
+def build_macro(files: Dict[str, str]) -> Optional[Path]:
+    """Compile the package's copy_root_tree.C (CMS) against the stand-in ROOT classes, once; returns a scratch directory
+    holding macro_bin + macro.src (the caller removes it) or None if the package has no macro.  A macro that does not
+    compile yields a directory without macro_bin: the stand-in `root` then fails, as ROOT would."""
+    if "copy_root_tree.C" not in files:
+        return None
+    base = os.environ.get("VERIF_TMP") or tempfile.gettempdir()
+    d = Path(tempfile.mkdtemp(prefix="vmacro_", dir=base))
+    (d / "macro.src").write_text(files["copy_root_tree.C"])
+    (d / "copy_root_tree.C").write_text(files["copy_root_tree.C"])
+    (d / "main.cpp").write_text('#include "vm_root_macro.h"\n#include "copy_root_tree.C"\n'
+                                'int main(int argc, char **argv) { if (argc != 3) return 64; copy_root_tree(argv[1], argv[2]); return 0; }\n')
+    jobfw = Path(__file__).resolve().parents[1] / "standin" / "jobfw"
+    r = subprocess.run(["g++", "-std=c++17", "-O0", "-w", f"-I{jobfw}", f"-I{d}", "-o", str(d / "macro_bin"), str(d / "main.cpp")], capture_output=True, text=True)
+    (d / "compile.log").write_text(r.stdout + r.stderr)
+    return d
+
+
 class Sandbox:
-    def __init__(self, files: Dict[str, str], backend: str, filelist: Optional[List[str]] = ("/data/f0.root",), setup_ok=True):
+    def __init__(self, files: Dict[str, str], backend: str, filelist: Optional[List[str]] = ("/data/f0.root",), setup_ok=True, macro_dir: Optional[Path] = None):
         base = os.environ.get("VERIF_TMP") or tempfile.gettempdir()
         self.root = Path(tempfile.mkdtemp(prefix="vsb_", dir=base))
         self.backend = backend
@@ -112,7 +131,14 @@ class Sandbox:
         if filelist is not None:
             (r / "scripts" / "filelist.txt").write_text("".join(f"{x}\n" for x in filelist))
         ctl = "/ctl" if self.ns else str(r / "ctl")
-        stub = STUB.replace("__CTL__", ctl)
+        stub = STUB.replace("__CTL__", ctl).replace("__JOBFW__", "/jobfw" if self.ns else str(r / "jobfw")).replace("__ROOT__", "" if self.ns else str(r))
+        shutil.copytree(Path(__file__).resolve().parents[1] / "standin" / "jobfw", r / "jobfw", ignore=shutil.ignore_patterns("__pycache__"))
+        if macro_dir is not None:
+            for n in ("macro_bin", "macro.src"):
+                if (Path(macro_dir) / n).exists():
+                    shutil.copy2(Path(macro_dir) / n, r / "jobfw" / n)
+        for name, nev in DATA_FILES.items():
+            (r / "data" / name).write_text(f"EVENTS {nev}\n")
         (r / "stubbin" / "_stub").write_text(stub)
         (r / "stubbin" / "_stub").chmod(0o755)
         for t in TOOLS:
